@@ -853,12 +853,23 @@ func (a AssignInstr) Execute(env *Zlisp) error {
 	if err != nil {
 		return err
 	}
+	// like def and set, an assignment is an expression: it leaves the
+	// assigned value on the stack. Leaving nothing made the form take
+	// its "value" from whatever lay below - the operands of an enclosing
+	// call, or the stack mark of an enclosing loop.
 	switch x := lhs.(type) {
 	case *SexpSymbol:
-		return env.LexicalBindSymbol(x, rhs)
+		err = env.LexicalBindSymbol(x, rhs)
+		if err == nil {
+			env.datastack.PushExpr(rhs)
+		}
+		return err
 	case Selector:
 		Q("AssignInstr: I see lhs is Selector")
 		err := x.AssignToSelection(env, rhs)
+		if err == nil {
+			env.datastack.PushExpr(rhs)
+		}
 		return err
 	case *SexpArray:
 		switch rhsArray := rhs.(type) {
@@ -882,6 +893,7 @@ func (a AssignInstr) Execute(env *Zlisp) error {
 						" we found %T", i, x.Val[i])
 				}
 			}
+			env.datastack.PushExpr(rhs)
 			return nil
 		default:
 			return fmt.Errorf("AssignInstr: don't know how to assign rhs %T `%v` to lhs %T `%v`",
